@@ -247,6 +247,7 @@ func (e *OpEngine) newFC(key, label string, inputs, outputs sym.Poly) (interp.Pt
 	if !ok {
 		return interp.PtrV{}, false
 	}
+	e.poisonConfig(conf)
 	if isErrVal(out.Results[1]) {
 		e.find("A4.pre", "layers.NewFC", "rejects-valid", e.P.FuncPos(ctor), "NewFC rejects a valid configuration [instance "+label+"]")
 		return interp.PtrV{}, false
@@ -476,10 +477,12 @@ func (e *OpEngine) RunSGDChecks(maxRank int) {
 				label := fmt.Sprintf("SGD %s w=%s", lc.label, shapeStr(dims))
 				e.RunBody(key, label, 100, func() {
 					e.M.Base = sizeBase(dims)
-					out, ok := e.call(key, label, ctor, []interp.Value{lc.conf()})
+					scv := lc.conf()
+					out, ok := e.call(key, label, ctor, []interp.Value{scv})
 					if !ok {
 						return
 					}
+					e.poisonConfig(scv)
 					opt := out.Results[0]
 					// every finite weight and gradient: overflow of w - lr·g itself is outside the property, but a guard
 					// that rejects finite gradients is not
